@@ -338,8 +338,10 @@ Qed.
 
 Theorem complete_under_silence n K : binds old n K = true -> binds new n K = true.
 Proof.
-  unfold binds. intros H. apply andb_prop in H. destruct H as [H HC]. apply andb_prop in H. destruct H as [HA HB].
-  apply andb_true_intro. split; [apply andb_true_intro; split|].
+  unfold binds. intros H. apply andb_prop in H. destruct H as [H HC]. apply andb_prop in H. destruct H as [H HB].
+  apply andb_prop in H. destruct H as [HD HA].
+  apply andb_true_intro. split; [apply andb_true_intro; split; [apply andb_true_intro; split|]|].
+  - exact HD.
   - apply part_A. exact HA.
   - rewrite forallb_forall in *. intros k Hk. apply part_B; [exact HA|apply HB; exact Hk].
   - rewrite forallb_forall. intros q Hq. apply part_C; assumption.
